@@ -38,7 +38,7 @@ func init() {
 		Technique: "abstract interpretation (must-facts at every store/notify site of the inlined graphs) + term agreement between the debit leg, the credit leg, the supply update and the notifications; who-may-write over the storage key families",
 		Explanation: "Decides the step obligations of the inductive argument for supply = Σ balances ∧ no negative balance, for all inputs and all paths: D1 family 'a' is written only inside Token.transfer, by Lock (Balance constant 0) and by the migration, the supply key only by Mint/Burn. " +
 			"D2 in every caller of Token.transfer the stored debit value is loaded(from).Balance − amount (or a Delete under Balance == amount), the stored credit is loaded(to).Balance + amount with the same amount term, other fields carried over; Mint adds exactly that amount to the supply with from = nil, Burn subtracts it with to = nil under supply ≥ amount; the public transfer establishes len(from)=len(to)=20 before any effect. " +
-			"D3 the credit record is loaded after the debit store on every path (self-transfer safety). D4 amount ≥ 0 and loaded(from).Balance ≥ amount hold at the stores. D5 every effect of Token.transfer implies its result is true (refusal is inert). D6 exactly one Transfer and one TransferX notification on result-true paths, none otherwise, arguments are the from/to/amount/details terms of the legs, no other emitter.",
+			"D3 the credit record is loaded after the debit store on every path (self-transfer safety). D4 amount ≥ 0 and loaded(from).Balance ≥ amount hold at the stores. D5 every effect of Token.transfer implies its result is true (refusal is inert). D6 exactly one Transfer and one TransferX notification on result-true paths, none otherwise, arguments are the from/to/amount/details terms of the legs, no other emitter. M (mutation sweep): a successful transfer has executed both legs for 20-byte addresses and only for those (legs-executed); Mint/Burn write the supply on every return; the loaders getAccount/getSupply return the stored value exactly when present.",
 		NotCovered:  "the invariant over histories is an inductive argument from D1–D6 under VM atomicity and non-wrapping VM integers; it is not executed or model-checked. Alphabet-only methods are assumed to receive 20-byte addresses and fresh lock targets (the property's own quantifier).",
 		Assumptions: []string{"VM integers fault instead of wrapping", "a balance stored earlier is non-negative (the induction hypothesis) when NewEpoch refunds the whole balance of a lock account"},
 		Run:         func(cx *CheckCtx) { runBalance(cx, "C01") },
